@@ -866,6 +866,51 @@ static void runRpdac(const Case &c) {
   delete d;
 }
 
+// HASHRPDAC as its query layer sees it: table size, occupancy bitmap, grammar, the symbol sequence at
+// every DAC position, and its own answers; re-validated by the Lean driver (`hdchk`).
+#include "StringDictionaryHASHRPDAC.h"
+static void runHrpdac(const Case &c) {
+  size_t len = 0;
+  uchar *buf = plain(c.strs, len, 1);
+  StringDictionaryHASHRPDAC *d = new StringDictionaryHASHRPDAC(new IteratorDictStringPlain(buf, len), (uint)len, (int)c.geti("ov", 25));
+  for (auto &op : c.ops) {
+    g_op++;
+    if (op[0] == "reload") {
+      std::stringstream ss(std::ios::in | std::ios::out | std::ios::binary);
+      d->save(ss);
+      StringDictionary *d2 = StringDictionaryHASHRPDAC::load(ss);
+      delete d; d = (StringDictionaryHASHRPDAC *)d2;
+      emit("RQ reloaded");
+    } else if (op[0] == "hd") { // hd <query hex,...|->
+      RePair *rp = d->rp;
+      string rules, seqs, loc, qa, occ;
+      for (uint64_t k = 0; k < rp->rules; k++)
+        rules += (k ? "," : "") + std::to_string(rp->G->getField(2 * k)) + ":" + std::to_string(rp->G->getField(2 * k + 1));
+      for (size_t id = 1; id <= d->numElements(); id++) {
+        uint *sq = nullptr;
+        uint l = rp->Cdac->access((uint)id, &sq);
+        if (id > 1) seqs += ";";
+        for (uint t = 0; t < l; t++) seqs += (t ? "," : "") + std::to_string(sq[t]);
+        delete[] sq;
+      }
+      for (size_t i = 0; i < d->hash->tsize; i++) occ += d->hash->b_ht->access(i) ? '1' : '0';
+      for (size_t i = 0; i < c.strs.size(); i++) {
+        string q = c.strs[i]; q.push_back('\0');
+        loc += (i ? "," : "") + std::to_string(d->locate((uchar *)q.data(), (uint)c.strs[i].size()));
+      }
+      if (op.size() > 1 && op[1] != "-")
+        for (auto &h : splitc(op[1])) {
+          string q = unhex(h); size_t n = q.size(); q.push_back('\0');
+          qa += (qa.empty() ? "" : ",") + std::to_string(d->locate((uchar *)q.data(), (uint)n));
+        }
+      emit("HD ts=%zu occ=%s t=%llu rules=%s seqs=%s loc=%s abs=%s", (size_t)d->hash->tsize, occ.empty() ? "-" : occ.c_str(),
+           (unsigned long long)rp->terminals, rules.empty() ? "-" : rules.c_str(), seqs.empty() ? "-" : seqs.c_str(),
+           loc.empty() ? "-" : loc.c_str(), qa.empty() ? "-" : qa.c_str());
+    } else emit("ERR unknown-op");
+  }
+  delete d;
+}
+
 // ---------------------------------------------------------------------------
 static void runCase(const Case &c) {
   if (c.stream == "dict") runDict(c);
@@ -876,7 +921,7 @@ static void runCase(const Case &c) {
   else if (c.stream == "bits") runBits(c);
   else if (c.stream == "repair") runRePair(c);
   else if (c.stream == "dac") runDac(c);
-  else if (c.stream == "rpdac") runRpdac(c);
+  else if (c.stream == "rpdac") { if (c.kind == "HASHRPDAC") runHrpdac(c); else runRpdac(c); }
   else emit("ERR unknown-stream %s", c.stream.c_str());
 }
 
